@@ -32,6 +32,7 @@ def _run(prog: Program, rep: Report, tier: str) -> None:
     wrappers.check_binary(prog, rep, 'C06-D2 binary-identities')
     from .c06_effects import inplace_discipline
     inplace_discipline(prog, rep)
+    default_dtype(prog, rep)
     negative_dims(prog, rep)
     from ..rules.negdim import check_dim_slices, positive_control
     rep.rule('C06-D4b', 'axis arithmetic: in fggs/indices.py a slice bound `dim + c` / `dim - c` computed from a `dim` parameter is reached only with `dim` made non-negative (kept alive by a synthetic positive example)')
@@ -45,6 +46,34 @@ def _run(prog: Program, rep: Report, tier: str) -> None:
     rep.floor('C06-D4b functions taking an axis', n_dim, 5)
     dtype_generic_limits(prog, rep)
     constructions_state_default(prog, rep)
+
+
+def default_dtype(prog: Program, rep: Report) -> None:
+    """A default is a Python number; the elements it stands for live in the physical tensor's dtype.  Wherever a default is made
+    a tensor in order to apply a torch operation to it, the tensor takes that dtype (`<t>.physical.new_tensor(d)`, or an explicit
+    `dtype=`): `torch.as_tensor(d)` computes in float32 whatever the tensor holds, so exp / log / division of the default of a
+    float64 tensor round, overflow or underflow where the stored elements do not."""
+    import ast
+    from ..model import own_nodes, norm
+    from ..util import callee_last
+    rule = 'C06-D1 default-dtype'
+    rep.rule('C06-D1c', 'a default wrapped into a tensor for a torch operation takes the dtype of the physical tensor (new_tensor, or an explicit dtype=)')
+    n = 0
+    for f in prog.module('fggs.indices').functions.values():
+        if f.is_lambda:
+            continue
+        for c in [x for x in own_nodes(f.node) if isinstance(x, ast.Call) and callee_last(x) in ('new_tensor', 'as_tensor', 'tensor', 'full', 'scalar_tensor')]:
+            args = list(c.args) + [k.value for k in c.keywords if k.arg in (None, 'data', 'fill_value')]
+            if not any(isinstance(a, ast.Attribute) and a.attr == 'default' for x in args for a in ast.walk(x)):
+                continue
+            n += 1
+            has_dtype = any(k.arg == 'dtype' for k in c.keywords)
+            inherits = callee_last(c) == 'new_tensor' and isinstance(c.func, ast.Attribute) and norm(c.func.value).endswith('physical')
+            ok = has_dtype or inherits
+            rep.ob(rule, f.fq(), norm(c)[:80], f.loc(c), ok,
+                   'same dtype as the stored elements' if ok else
+                   'the default is made a tensor of torch\'s default dtype (float32): for a float64 tensor the operation applied to the default and the one applied to the stored elements no longer agree')
+    rep.floor('C06-D1 default-dtype', n, 6)
 
 
 def negative_dims(prog: Program, rep: Report) -> None:
